@@ -108,7 +108,8 @@ def judge_history(mon: Monitor, w: RecWriter, stream, hdr, ftr, seen_obs, result
     if any(sz < m for _, sz in parts[:-1]):
         return mon.fail("history", wit({"why": "a part other than the last is below the writer's minimum", "parts": parts, "min_write_sz": m}), key="small-part-midstream", cls=cls)
     if any(sz > w.max_write_sz for _, sz in parts):
-        return mon.fail("history", wit({"why": "part above the writer's maximum", "parts": parts}), key="part-too-large", cls=cls)
+        # the statement bounds parts from below only; a writer with a small upper limit (a stream that never spilled is flushed as one piece) is an observation
+        mon.obs["histories_with_a_part_above_the_writers_maximum"] += 1
     if len(w.final) != 1 or [p["PartNumber"] for p in w.final[0]] != ids:
         return mon.fail("history", wit({"why": "finalise not called exactly once with the written parts in order", "finalise_calls": [[p["PartNumber"] for p in f] for f in w.final], "written": ids}),
                         key="finalise-parts", cls=cls)
@@ -160,6 +161,8 @@ def make_config(rng: random.Random, max_parts: int):
     max_part = rng.choice([10_000, min_part + total_parts * wpc])
     # what the caller hands over: immutable bytes, one fresh bytearray per chunk, or ONE bytearray per size reused for every chunk of that size (a cached blank-tile payload)
     kind = rng.choice(["bytes", "bytes", "bytes", "bytearray", "shared-bytearray"])
+    if rng.random() < 0.1:
+        return dict(m=m, wpc=wpc, spill=spill, hdr=hdr, ftr=ftr, spec=spec, min_part=min_part, max_part=10_000, kind=kind, max_write=rng.choice([m, 2 * m, 5 * m]))
     return dict(m=m, wpc=wpc, spill=spill, hdr=hdr, ftr=ftr, spec=spec, min_part=min_part, max_part=max_part, kind=kind)
 
 
@@ -200,7 +203,7 @@ def run_direct(mon: Monitor, cfg, trees, cls: str) -> None:
     """One history: leaves built with the real append op, merged along the given trees, collated, finalised."""
     from odc.geo.cog._mpu import MPUChunk, _finalizer_dask_op, _merge_and_spill_op, _mpu_append_chunks_op, _mpu_collate_op
 
-    w = RecWriter(cfg["m"], cfg["min_part"], cfg["max_part"])
+    w = RecWriter(cfg["m"], cfg["min_part"], cfg["max_part"], max_write_sz=cfg.get("max_write", 1 << 30))
     bags, stream, hdr, ftr = build_stream(cfg)
     seen = {}
 
@@ -268,7 +271,7 @@ def run_dask(mon: Monitor, cfg, scheduler: str, seed: int, workers: int = 4, lab
     from odc.geo.cog._mpu import mpu_write
     from ..daskorder import random_order
 
-    w = RecWriter(cfg["m"], cfg["min_part"], cfg["max_part"], jitter_seed=seed if scheduler == "threads" else None)
+    w = RecWriter(cfg["m"], cfg["min_part"], cfg["max_part"], max_write_sz=cfg.get("max_write", 1 << 30), jitter_seed=seed if scheduler == "threads" else None)
     bags, stream, hdr, ftr = build_stream(cfg)
     seen = {}
 
@@ -349,6 +352,9 @@ PINNED = [
     dict(m=8, wpc=1, spill=16, hdr=8, ftr=1, spec=[[[9, 3], [9, 9], [3, 9]]], min_part=1, max_part=10_000, kind="shared-bytearray"),
     dict(m=64, wpc=2, spill=10**9, hdr=None, ftr=None, spec=[[[65, 1], [65]], [[1, 65]]], min_part=1, max_part=10_000, kind="shared-bytearray"),
     dict(m=8, wpc=1, spill=0, hdr=None, ftr=None, spec=[[[7, 7], [7]]], min_part=1, max_part=10_000, kind="bytearray"),
+    # writers whose largest allowed part is smaller than what is still cached at the end (nothing spilled, a header in front): ids must stay unique whatever the library does about it (C06-10)
+    dict(m=8, wpc=1, spill=0, hdr=16, ftr=8, spec=[[[40, 40], [40], [40, 24]]], min_part=1, max_part=10_000, max_write=64),
+    dict(m=8, wpc=2, spill=10**9, hdr=8, ftr=None, spec=[[[30], [30, 30]], [[30]]], min_part=5, max_part=10_000, max_write=50),
 ]
 
 
